@@ -39,6 +39,9 @@ def option_pool():
         hdr.SOMEIPSDConfigOption(configs=(("a", "b=c"), ("empty", ""))),
         hdr.SOMEIPSDUnknownOption(type=0x77, payload=b"\x00\x01\x02"),
         hdr.IPv4EndpointOption(v4, 0x99, 1),  # unknown transport protocol number
+        # the smallest options there are: unknown type, 1 and 2 bytes behind the type byte
+        hdr.SOMEIPSDUnknownOption(type=0x78, payload=b"\x00"),
+        hdr.SOMEIPSDUnknownOption(type=0x79, payload=b"\x00\x01"),
     ]
 
 
